@@ -65,9 +65,36 @@ def eta_weights(lt):
     return [{"start": 0.0, "middle": 0.5, "end": 1.0}[lt["inflow_at"]]], [1.0]
 
 
+def configured_model(cfg, how, other):
+    """The declared settings reach the model by another public route than the constructor."""
+    U = sg.universe_of(cfg)
+    lt = cfg["lt"]
+    if how == "stock-class":
+        # a stock given the model *class* creates the instance itself; settings and parameters follow
+        dims = build.dimset(U, gen.uletters(U))
+        dsm = build.fd.InflowDrivenDSM(dims=dims, lifetime_model=getattr(build.fd, lt["cls"]), name="s")
+        mdl = dsm.lifetime_model
+        mdl.inflow_at = lt["inflow_at"]
+        mdl.n_pts_per_interval = lt["n_pts"]
+        mdl.set_prms(**{k: sg.build_prm(U, p) for k, p in lt["prms"].items()})
+        return mdl
+    mdl = sg.build_lifetime(U, dict(lt, inflow_at=other["inflow_at"], n_pts=other["n_pts"]))
+    if how == "assign-after-use":
+        _ = mdl.sf, mdl.pdf
+    mdl.inflow_at = lt["inflow_at"]
+    mdl.n_pts_per_interval = lt["n_pts"]
+    if how == "assign-after-use":
+        mdl.set_prms(**{k: sg.build_prm(U, p) for k, p in lt["prms"].items()})
+    return mdl
+
+
 def run_tables(desc):
     cfg = desc["cfg"]
     out = check_model(cfg, None)
+    if desc.get("configure"):
+        c = desc["configure"]
+        check_model(cfg, configured_model(cfg, c["how"], c), pre="settings-assigned-")
+        out["classes"].append("settings-by:" + c["how"])
     if desc.get("reprm"):
         # the same model object gets new parameters (some of them possibly unchanged): the tables must follow
         U = sg.universe_of(cfg)
@@ -170,7 +197,7 @@ def check_model(cfg, mdl, pre=""):
 
 @st.composite
 def table_cases(draw, max_n=8):
-    grid = draw(sg.grids(max_n=max_n))
+    grid = draw(sg.grids(max_n=max_n, long_grid=15))
     cfg = {"grid": grid, "extra": draw(sg.extras(max_extra=2))}
     cfg["lt"] = draw(sg.lifetime_descs(sg.universe_of(cfg)))
     d = {"cfg": cfg}
@@ -183,6 +210,12 @@ def table_cases(draw, max_n=8):
         elif keep == "last":
             new = {names[-1]: new[names[-1]]}
         d["reprm"] = new
+    if draw(st.integers(0, 3)) == 0:
+        d["configure"] = {
+            "how": draw(st.sampled_from(["assign-before-use", "assign-after-use", "stock-class"])),
+            "inflow_at": draw(st.sampled_from(["start", "middle", "end"])),
+            "n_pts": draw(st.sampled_from([1, 1, 2, 3, 6])),
+        }
     return d
 
 
